@@ -6,7 +6,7 @@ import re
 
 
 def _convert_string_to_int_if_possible(text):
-    return int(text) if text.isdigit() else text
+    return int(text) if text.isdecimal() else text
 
 
 def natural_key(symbol):
